@@ -1,9 +1,17 @@
 """C09 -- Asking without committing leaves a learner unchanged; committing is the same ask.
 
-proof          : coq/theories/Props/C09.v about Model/Seq.v and Model/L1D.v (the candidate computation is a pure
-                 function of the state; the committing ask is that computation followed by tell_pending of each point)
-correspondence : the two models vs the real SequenceLearner / Learner1D on histories rich in non-committing asks
-                 (every second op) and re-tells, compared step by step inside Coq
+proof          : coq/theories/Props/C09.v about the executable models
+                   Model/Seq.v, Model/L1D.v, Model/Avg.v            -- the candidate computation is a pure function of the
+                       state (as in the code); the committing ask is that computation + tell_pending of each point
+                   Model/Avg1D.v + Model/Avg1DPend.v (_partial)     -- same, for samples and the pending set (loss not modelled)
+                   Model/DataSaver.v                                 -- C09 of the wrapper from C09 of the wrapped learner
+                   Model/Balancing.v, Model/Integrator.v, Model/LND.v -- restore-based asks: the non-committing ask is the
+                       output of the committing computation on a state that is handed back (noop BY CONSTRUCTION, see the
+                       comments in Props/C09.v); proved content: the committing ask leaves children / data / pending set
+                       as ask(n, False) + tell_pending(each) does (_partial: caches, cycle position, LearnerND's queue differ)
+correspondence : Seq, L1D, Avg, Avg1D+pending and the Integrator (incl. ask(n, tell_pending=False): the real learner is
+                 observed after the rolled-back call) vs the real classes on histories rich in non-committing asks,
+                 compared step by step inside Coq; the other models are tied by their owning checks (C15, C18, C04)
 search         : twin oracle on the REAL classes, all learner types and both wrappers: at every visited state
                  ask(n,False) twice -> same answer, snapshot unchanged, an untouched twin (built by replaying the
                  history, never by copying) answers a common continuation identically; ask(n,True) on a twin returns
@@ -24,11 +32,15 @@ from . import c17
 
 THEOREMS = {n: "Props.C09" for n in ["C09_seq_noop", "C09_seq_commit", "C09_l1d_noop", "C09_l1d_commit",
                                      "C09_avg_noop", "C09_avg_commit",
-                                     "C09_avg1d_noop_partial", "C09_avg1d_commit_partial"]}
+                                     "C09_avg1d_noop_partial", "C09_avg1d_commit_partial",
+                                     "C09_ds_noop", "C09_ds_commit", "C09_bal_noop", "C09_bal_commit_partial",
+                                     "C09_bal_commit_losses_partial", "C09_bal_child_hyps_inhabited",
+                                     "C09_int_noop", "C09_int_commit_partial",
+                                     "C09_lnd_noop", "C09_lnd_commit_partial"]}
 
 # what chk.prove builds: the property file and the Run files of every correspondence of this check
 VO_TARGETS = ["theories/Props/C09.vo", "theories/Run/SeqRun.vo", "theories/Run/L1DRun.vo", "theories/Run/AvgRun.vo",
-              "theories/Run/BookkeepingRun.vo"]
+              "theories/Run/IntegratorRun.vo", "theories/Run/BookkeepingRun.vo"]
 
 # signatures of defects already known on the unchanged tree (DESIGN section 9); identical strings go into
 # known_findings.json when the main session decides not to repair them
@@ -908,6 +920,9 @@ def model_correspondences(chk: Check):
     chk.extra["avg1d_pending_correspondence"] = B.d1p_correspondence(
         chk, "a1dcases", B.MIX_C09, 120 if chk.quick else 1000, 26 if chk.quick else 50)
     chk.log(f"correspondence: Avg1D+pending {chk.extra['avg1d_pending_correspondence']}")
+    chk.extra["integrator_nc_correspondence"] = B.int_correspondence(
+        chk, "intcases", 40 if chk.quick else 400, 40 if chk.quick else 120, 0.3)
+    chk.log(f"correspondence: Integrator with non-committing asks {chk.extra['integrator_nc_correspondence']}")
 
 
 # ---------------------------------------------------------------- driver
@@ -984,9 +999,17 @@ def run(chk: Check) -> int:
         rule="one case = one history driven on a real learner (13 base configurations of the 7 learner types; BalancingLearner over "
              "2-3 children of each type x 4 strategies; DataSaver over each type); at EVERY prefix of the history a twin experiment "
              "with n in 0..12 (twins by replay); non-trivial = the history reaches states with pending points and has > 3 probed states; "
-             "distinct by (configuration, op list); plus Seq/L1D model correspondences on histories where every second ask is non-committing",
-        assumptions=["Model/Seq.v and Model/L1D.v tied to the code by sampled correspondence; all other learner types are covered by "
-                     "the twin oracle on the real classes only (no model): for them the level is the oracle's, not a proof",
+             "distinct by (configuration, op list); BalancingLearner histories switch the strategy mid-run; domains with different "
+             "per-axis ranges; plus model correspondences (Seq, L1D, Avg, Avg1D+pending, Integrator with non-committing asks) on "
+             "histories where about every second ask is non-committing",
+        assumptions=["Seq, L1D, Avg, Avg1D(+pending overlay), Integrator models tied to the code by sampled correspondence here; "
+                     "Balancing / DataSaver / LearnerND models by the correspondences of C15 / C18 / C04",
+                     "for the restore-based learners (BalancingLearner, IntegratorLearner, LearnerND) 'the non-committing ask changes "
+                     "nothing' is a theorem only by construction of the model of restore; that the real snapshot/rollback is complete "
+                     "is decided by the twin oracle (and, for the integrator, by the correspondence) -- exploration, not proof",
+                     "Learner2D has no model: twin oracle only",
+                     "C09_*_partial: equality of the wrapper's private caches / cycle position / LearnerND's queue, hence of all later "
+                     "answers, is not proved (false for LearnerND: C09:F29); interval losses of AverageLearner1D are not modelled",
                      "later answers are compared along a 6-step common continuation, not for ever"])
 
 
